@@ -121,6 +121,8 @@ class FrontMatterExtension(ParserExtension):
         next_line = None
         while repeat_again:
             next_line = source_provider.get_next_line()
+            if next_line is None:
+                break
             if next_line and next_line.rstrip(Constants.ascii_whitespace):
                 start_char, _ = ThematicLeafBlockProcessor.is_thematic_break(
                     next_line.rstrip(Constants.ascii_whitespace),
